@@ -231,6 +231,15 @@ def check_jacdict_block(rng):
                 J = model.jacobian(ss, ['z', 'e'], ['cc', 'sv'], T=T)
                 exp = {('cc', 'z'): A @ w('y', 'z'), ('cc', 'e'): A @ w('y', 'e'), ('sv', 'z'): B @ w('y', 'z'), ('sv', 'e'): B @ w('y', 'e') + D}
                 bad = [k for k, v in exp.items() if np.abs(M.dense(J.nesteddict.get(k[0], {}).get(k[1], np.zeros((T, T))), T) - v).max() > 1e-9]
+                # linear impulses: both shocks at once, in either key order (the user block's inputs y and e are then perturbed together, y through upstream blocks), and each alone
+                dz, de = 0.1 * 0.7 ** np.arange(T), np.r_[0.0, 0.2, -0.1, np.zeros(T - 3)]
+                for shk in ({'z': dz, 'e': de}, {'e': de, 'z': dz}, {'e': de}, {'z': dz}):
+                    imp = model.impulse_linear(ss, shk, outputs=['cc', 'sv', 'y'])
+                    app = J @ {k: v for k, v in shk.items()}
+                    for o in ('cc', 'sv'):
+                        want = sum(exp[(o, i)] @ v for i, v in shk.items())
+                        if o not in imp.toplevel or np.abs(imp[o] - app[o]).max() > 1e-9 or np.abs(imp[o][:T - 3] - want[:T - 3]).max() > 1e-9:
+                            bad.append(f'impulse_linear {o} for shocks {list(shk)}')
             except Exception as ex:
                 bad = [f'raised {type(ex).__name__}: {ex}']
             if bad:
